@@ -1,6 +1,6 @@
 (* C09 — Serialisation round trip restores an equal, equally behaving automaton.
    Pinned statements only; proofs live in Proofs/SerProps.v. *)
-From DV Require Import Model.Base Model.Nfa Model.BwBuild Model.CwBuild Model.Ser Proofs.SerProps.
+From DV Require Import Model.Base Model.Nfa Model.BwBuild Model.CwBuild Model.Ser Proofs.SerProps Proofs.BuildRanges.
 Local Open Scope N_scope.
 
 (* Deserialising the image (followed by arbitrary trailing bytes r) yields the original record
@@ -87,3 +87,63 @@ Example c09_hypotheses_met :
   | _ => False
   end.
 Proof. vm_compute. split; reflexivity. Qed.
+
+(* ---- NO REPRESENTABILITY HYPOTHESIS: every built automaton round-trips -----------------------------
+   Every automaton the builders return is representable in the Rust types (Proofs/BuildRanges.v: the
+   guards the unbounded-N model has wherever the Rust code converts or checks a width are carried
+   through every write of nfa_builder.rs, both builder.rs and mapper.rs: array length <= u32::MAX,
+   packed output position <= U24::MAX, check / base / fail / output position / parent < 2^32,
+   pattern lengths <= u32::MAX, mapper table over code points below 0x110000, values = the registered
+   ones).  [dom] is the value range of the value type (ser_law), and the registered values lie in it. *)
+Theorem bw_built_automata_are_representable :
+  forall (V : Type) (dom : V -> Prop) k nfb (pvs : list (list N * V)) (A : bw_automaton V),
+    (forall p v, In (p, v) pvs -> Forall (fun b => b < 256) p) -> (forall p v, In (p, v) pvs -> dom v) ->
+    bw_build_with_values V k nfb pvs = Ok A -> bw_ranges dom A.
+Proof. exact bw_build_ranges_lemma. Qed.
+Print Assumptions bw_built_automata_are_representable.
+
+Theorem cw_built_automata_are_representable :
+  forall (V : Type) (dom : V -> Prop) k nfb (pvs : list (list N * V)) (A : cw_automaton V),
+    (forall p v, In (p, v) pvs -> Forall (fun c => c < 1114112) p) -> (forall p v, In (p, v) pvs -> dom v) ->
+    cw_build_with_values V k nfb pvs = Ok A -> cw_ranges dom A.
+Proof. exact cw_build_ranges_lemma. Qed.
+Print Assumptions cw_built_automata_are_representable.
+
+(* C09 in full, byte-wise: for every lawful value type, every match kind, every num_free_blocks and
+   every pattern/value sequence whose values lie in the type's range: the bytes serialize produces,
+   followed by ANY trailing bytes r, deserialise to the SAME automaton (Leibniz equality: same
+   arrays, outputs, kind, counters, hence the same answer to every search) and hand back exactly r;
+   re-serialising gives the same bytes. *)
+Theorem bw_every_built_automaton_round_trips :
+  forall (V : Type) (SV : serializable V) (dom : V -> Prop), ser_law SV dom ->
+  forall k nfb (pvs : list (list N * V)) (A : bw_automaton V),
+    (forall p v, In (p, v) pvs -> Forall (fun b => b < 256) p) -> (forall p v, In (p, v) pvs -> dom v) ->
+    bw_build_with_values V k nfb pvs = Ok A ->
+  forall r : list N,
+    bw_deserialize V SV (bw_serialize V SV A ++ r) = Ok (A, r)
+    /\ forall B r', bw_deserialize V SV (bw_serialize V SV A ++ r) = Ok (B, r') ->
+                    B = A /\ r' = r /\ bw_serialize V SV B = bw_serialize V SV A.
+Proof.
+  intros V SV dom L k nfb pvs A Hb Hd HA r.
+  pose proof (bw_build_ranges_lemma V dom k nfb pvs A Hb Hd HA) as HR. split.
+  - exact (bw_roundtrip_lemma SV dom L A r HR).
+  - intros B r' E. exact (bw_reserialize SV dom L A B r r' HR E).
+Qed.
+Print Assumptions bw_every_built_automaton_round_trips.
+
+Theorem cw_every_built_automaton_round_trips :
+  forall (V : Type) (SV : serializable V) (dom : V -> Prop), ser_law SV dom ->
+  forall k nfb (pvs : list (list N * V)) (A : cw_automaton V),
+    (forall p v, In (p, v) pvs -> Forall (fun c => c < 1114112) p) -> (forall p v, In (p, v) pvs -> dom v) ->
+    cw_build_with_values V k nfb pvs = Ok A ->
+  forall r : list N,
+    cw_deserialize V SV (cw_serialize V SV A ++ r) = Ok (A, r)
+    /\ forall B r', cw_deserialize V SV (cw_serialize V SV A ++ r) = Ok (B, r') ->
+                    B = A /\ r' = r /\ cw_serialize V SV B = cw_serialize V SV A.
+Proof.
+  intros V SV dom L k nfb pvs A Hb Hd HA r.
+  pose proof (cw_build_ranges_lemma V dom k nfb pvs A Hb Hd HA) as HR. split.
+  - exact (cw_roundtrip_lemma SV dom L A r HR).
+  - intros B r' E. exact (cw_reserialize SV dom L A B r r' HR E).
+Qed.
+Print Assumptions cw_every_built_automaton_round_trips.
